@@ -487,3 +487,44 @@ def s_paired(S):
         gb, Pb = g_of(lj(('A', 'B'), cur['rho'], cur['kT'], diam=cur['diam'], eps=cur['eps']))
         if ga is not None and gb is not None:
             S.case(all(np.allclose(ga[a, b], gb[a, b], rtol=1e-5, atol=1e-6) for a in 'AB' for b in 'AB'), 'sweep step %s=%s equals a fresh System' % (what, val))
+
+
+# --------------------------------------------------------------------------- contracts monitored on the repository's test-suite
+
+@standin('contracts-monitored-on-the-repository-test-suite',
+         props=['C01', 'C03', 'C05', 'C06', 'C07', 'C09', 'C10', 'C12', 'C13', 'C14', 'C15', 'C16'])
+def s_monitor(S):
+    """Thorough tier only: every contract installed as a run-time wrapper while the 59 repository tests run."""
+    if S.tier != 'thorough':
+        S.bounds = 'thorough tier only'
+        S.case(True, '')
+        return
+    import io
+    import contextlib
+    from pyvc import api, monitor
+    _quiet()
+    monitor.STATE.update({'depth': 0, 'calls': {}, 'mismatches': [], 'skipped': {}})
+    undo = monitor.install(api.CONTRACTS)
+    buf = io.StringIO()
+    try:
+        with contextlib.redirect_stdout(buf), contextlib.redirect_stderr(buf):
+            rc = monitor.run_test_suite(S.repo)
+    finally:
+        for u in undo:
+            u()
+    calls = monitor.STATE['calls']
+    S.bounds = 'the calls made by the repository test-suite (pytest rc=%d): %d monitored functions, %d contract evaluations' % (
+        rc, len(calls), sum(calls.values()))
+    S.note = 'evaluations per function: ' + ', '.join('%s=%d' % (k.split('::')[1], v) for k, v in sorted(calls.items(), key=lambda kv: -kv[1])[:12])
+    S.cases += sum(calls.values())
+    S.case(rc == 0, 'repository test-suite passes with the monitors installed', {'pytest rc': rc, 'tail': buf.getvalue()[-600:]})
+    seen = set()
+    for m in monitor.STATE['mismatches']:
+        q = m['target'].split('::')[1]
+        if 'MartynovSarkisov.calculate' in q:
+            continue          # the recorded C09 finding (known_findings.txt); its precise form is decided by the C09 check
+        ident = 'contract and code disagree on a call made by the test-suite: %s' % q
+        if ident in seen:
+            continue
+        seen.add(ident)
+        S.case(False, ident, m)
